@@ -1,24 +1,48 @@
-(** Decidable instance validity (the domain of the round-trip theorem), for instances whose scalars are handles and whose
-    converters are tables: run over real instances by the C01/C13 correspondence to show the theorem's hypothesis is inhabited
-    by what the library actually builds. *)
-From OfxV Require Import Base.Prelude Model.Schema Model.SchemaWf Model.Convert Model.ConvertCases Proofs.RoundTrip3 Proofs.RoundTrip6.
+(** Decidable instance validity (the domain of the round-trip theorem), generic in the scalar values (with a decidable
+    equality) and in the converters: run over real instances by the C01/C13 correspondence - with handles and converter tables,
+    and with the concrete typed converters - to show the theorem's hypothesis is inhabited by what the library actually builds. *)
+From OfxV Require Import Base.Prelude Model.Schema Model.SchemaWf Model.Convert Proofs.RoundTrip3 Proofs.RoundTrip6.
 Local Open Scope string_scope.
 
 Section VB.
-  Variable tb : conv_table.
-  Variable utb : unconv_table.
+  Variable sval : Type.
+  Variable sval_eqb : sval -> sval -> bool.
+  Variable conv : N -> sin sval -> result (option sval).
+  Variable unconv : N -> sval -> result text.
   Variable S : schema.
-  Notation conv := (tconv tb).
-  Notation unconv := (tunconv utb).
+  Notation inst := (inst sval).
+
+  Fixpoint ginst_eqb (a b : inst) {struct a} : bool :=
+    match a, b with
+    | Inst _ ca fa ma, Inst _ cb fb mb =>
+      let fv := fun (x y : fval sval) => match x, y with
+                  | FNone _, FNone _ => true | FVal _ u, FVal _ v => sval_eqb u v | FSub _ i, FSub _ j => ginst_eqb i j | _, _ => false end in
+      let feq := fix feq (x : list (string * fval sval)) (y : list (string * fval sval)) {struct x} : bool :=
+        match x, y with
+        | [], [] => true
+        | (k, u) :: x', (k', v) :: y' => String.eqb k k' && fv u v && feq x' y'
+        | _, _ => false
+        end in
+      let mv := fun (x y : member sval) => match x, y with
+                  | MAgg _ i, MAgg _ j => ginst_eqb i j | MStr _ s, MStr _ t => text_eqb s t
+                  | MVal _ u, MVal _ v => option_eqb sval_eqb u v | _, _ => false end in
+      let meq := fix meq (x : list (member sval)) (y : list (member sval)) {struct x} : bool :=
+        match x, y with
+        | [], [] => true
+        | u :: x', v :: y' => mv u v && meq x' y'
+        | _, _ => false
+        end in
+      String.eqb ca cb && feq fa fb && meq ma mb
+    end.
 
   Definition is_nil {A} (l : list A) : bool := match l with [] => true | _ => false end.
-  Definition scalar_ok (t : N) (x : hval) : bool :=
+  Definition scalar_ok (t : N) (x : sval) : bool :=
     match unconv t x with
-    | OK s => negb (is_nil s) && match conv t (SText hval s) with OK (Some y) => N.eqb y x | _ => false end
+    | OK s => negb (is_nil s) && match conv t (SText sval s) with OK (Some y) => sval_eqb y x | _ => false end
     | Err _ => false
     end.
 
-  Fixpoint valid_b (i : hinst) : bool :=
+  Fixpoint valid_b (i : inst) : bool :=
     match i with
     | Inst _ cn fs ms =>
       match find_cls S cn with
@@ -26,24 +50,24 @@ Section VB.
       | Some c =>
         rt_class_okb c
         && strs_eqb (map fst fs) (map fst (spec_no_list c))
-        && (fix go (l : list (string * fval hval)) : bool :=
+        && (fix go (l : list (string * fval sval)) : bool :=
               match l with
               | [] => true
               | (k, FNone _) :: t => go t
               | (k, FVal _ x) :: t => match assoc k (ci_spec c) with Some (AElem ty _) => scalar_ok ty x | _ => false end && go t
               | (k, FSub _ j) :: t => match assoc k (ci_spec c) with Some (ASub _ _) => true | _ => false end
-                                      && String.eqb (lower (icls hval j)) k && negb (has_dot (icls hval j)) && valid_b j && go t
+                                      && String.eqb (lower (icls sval j)) k && negb (has_dot (icls sval j)) && valid_b j && go t
               end) fs
-        && (fix go (l : list (member hval)) : bool :=
+        && (fix go (l : list (member sval)) : bool :=
               match l with
               | [] => true
-              | MAgg _ j :: t => negb (ci_elist c) && mem (lower (icls hval j)) (listaggregates c) && negb (has_dot (icls hval j)) && valid_b j && go t
+              | MAgg _ j :: t => negb (ci_elist c) && mem (lower (icls sval j)) (listaggregates c) && negb (has_dot (icls sval j)) && valid_b j && go t
               | MVal _ (Some x) :: t => ci_elist c && match the_listelem c with Some (_, ty) => scalar_ok ty x | None => false end && go t
               | _ :: _ => false
               end) ms
         && (match split_at (ci_spec c) with None => is_nil ms | Some _ => true end)
-        && match construct hval conv S cn (canon_args hval unconv c ms) (canon_kw hval unconv c fs) with
-           | OK j => inst_eqb j (Inst hval cn fs ms)
+        && match construct sval conv S cn (canon_args sval unconv c ms) (canon_kw sval unconv c fs) with
+           | OK j => ginst_eqb j (Inst sval cn fs ms)
            | Err _ => false
            end
       end
